@@ -22,7 +22,7 @@ CHECKS = {
    design="6/C16"),
  "C05": dict(
    technique="TLA+ model WSConn (FrameAtomic, NoMsgInterleave, MutexOK) checked by TLC; TLC trace validation of hook events (lock discipline R2/R3, frame atomicity, message ownership) and of the peer-observed wire; refinement check of real executions of the model's own scenario through WSConn's own actions (TraceRefine.tla); Go race detector as auxiliary oracle for the data-race clause",
-   text="Model: all interleavings within the constants. Code: seeded concurrent executions (1-3 writers with Write/Writer, pingers, reader, closer) over a perturbing transport; every lock/unlock/emit event is validated by TraceConn.tla, every frame by TraceWire.tla, every message the peer reassembles is matched to exactly one written message in per-writer order; the same executions run again under -race with the sink nil.",
+   text="Model: all interleavings within the constants. Code: seeded concurrent executions (1-3 writers with Write/Writer, pingers, reader, closer) over a perturbing transport; every lock/unlock/emit event is validated by TraceConn.tla, every frame by TraceWire.tla, every message the peer reassembles is matched to exactly one written message in per-writer order; the same executions run again under -race with the sink nil. Refinement: 200+200 (quick) / 1500+1500 (thorough) executions of the model's scenarios (incl. cancelled contexts, a context cancelled between two chunks with a second writer queued, peer pings) are replayed through WSConn's own actions with NoMsgInterleave / NoMsgInsideUnfinished / FrameAtomic evaluated in every state; a third to a half of all executions run with one hook event held by a scheduler gate so that nanosecond windows are actually visited; driver closetake replays the history of the defect fixed in 03b1726.",
    note="The memory-model part ('no data race') is decided by the Go race detector, not by TLC. Schedules are sampled.",
    design="6/C05"),
  "C15": dict(
@@ -67,7 +67,7 @@ CHECKS = {
    design="6/C14"),
  "C09": dict(
    technique="TLA+ liveness with timers as separately enabled actions (spec/WSClose.tla, WSConn liveness config): 'is this timer needed' is decided by TLC with the timer's action removed; TLC-written adversary x state table replayed against the real code with real timers",
-   text="TLC checks that Close ends with only the two 5 s timers enabled and that the CloseRead context is cancelled with no timer at all, and that the two pre-fix deviations violate these properties; 228 adversary scripts x local states x operations x roles run concurrently on the real Conn and durations are compared with 3 s + 5 s per timer the specification allows; the WgTimeout hook flags any reliance on the 15 s backstop.",
+   text="TLC checks that Close ends with only the two 5 s timers enabled and that the CloseRead context is cancelled with no timer at all, and that the two pre-fix deviations violate these properties; 228 adversary scripts x local states x operations x roles run concurrently on the real Conn and durations are compared with 3 s + 5 s per timer the specification allows; the WgTimeout hook flags any reliance on the 15 s backstop. Refinement executions with a CloseNow actor (150 quick / 1500 thorough), half of them with one teardown step held by a hook gate, must be behaviours of WSConn and every call of the scenario must return (each is bounded).",
    note="Seconds are measured (3 s slack, process otherwise idle); TLC decides only which timers a path may need.",
    design="6/C09"),
  "C10": dict(
